@@ -23,6 +23,10 @@ compute_dyadic_downscaling) and RECORD what it wrote.  No judging here.
   file written with nibabel (identity affine); the tool converts the volume,
   generates the scales (fixed target chunk 64) and computes the pyramid; the
   FINAL info and every level are read back.
+* volumes (make_volume): unique / random values, label images whose channels
+  share label sets (multi-channel compressed_segmentation), uint64 values
+  above 2^53 (averaging in float64 is inexact there: the level must still not
+  depend on how the scale is cut into chunks).
 * source faults: right before the step that reads scale k, one chunk of scale
   k is removed ("missing"), gets a bad gzip magic number ("badgzip") or loses
   its last byte ("truncated", raw encoding without gzip); for sharded storage
@@ -111,9 +115,50 @@ def chunk_grid(size, chunk):
 def make_volume(size, dtype, channels, rng, kind):
     """(C, Z, Y, X) array.  kind 'unique': pairwise distinct values (per channel
     offset); 'random': seeded random values (float32: multiples of 1/1 so that
-    means of 8 are exact)."""
+    means of 8 are exact); 'labels': a label image - few labels (small ones and
+    labels at the top of the type's range) in large uniform regions cut by
+    random planes, every further channel being the first one again, a mirror
+    image of it, or a fresh field over the SAME labels, so that blocks of
+    different channels hold the same label sets; 'big' (uint64): values from
+    2^53 up to the top of the range (not representable in float64)."""
     n = size[0] * size[1] * size[2]
     dt = np.dtype(dtype)
+    if kind == "labels":
+        mx = int(np.iinfo(dt).max)
+        pool = [0, 1, 2, 7, 255, mx, mx - 1, mx // 2 + 1]
+        nlab = int(rng.integers(1, 5))
+        labels = [pool[int(i)] for i in rng.choice(len(pool), size=nlab, replace=False)]
+
+        def field():
+            f = np.zeros((size[2], size[1], size[0]), dtype=np.int64)
+            for _ in range(int(rng.integers(0, 4))):      # cut by planes: large uniform regions
+                ax = int(rng.integers(0, 3))
+                cut = int(rng.integers(0, f.shape[ax] + 1))
+                sl = [slice(None)] * 3
+                sl[ax] = slice(cut, None)
+                f[tuple(sl)] += 1
+            return f % nlab
+        first = field()
+        chans = [first]
+        for _c in range(1, channels):
+            how = int(rng.integers(0, 4))
+            if how <= 1:
+                chans.append(first)
+            elif how == 2:
+                chans.append(np.flip(first, axis=int(rng.integers(0, 3))))
+            else:
+                chans.append(field())
+        lut = np.array(labels, dtype=dt)
+        return np.stack([lut[c] for c in chans]).astype(dt)
+    if kind == "big":
+        assert dt == np.uint64
+        shape = (channels, size[2], size[1], size[0])
+        e = rng.integers(53, 64, size=shape).astype(np.uint64)
+        low = rng.integers(0, 2 ** 63, size=shape, dtype=np.uint64)
+        vol = (np.uint64(1) << e) | (low & ((np.uint64(1) << e) - np.uint64(1)))
+        top = rng.random(shape) < 0.1                     # the very top of the range
+        vol[top] = np.uint64(2 ** 64 - 1) - (low[top] & np.uint64(4095))
+        return vol
     if kind == "unique":
         base = rng.permutation(n * channels) + 1
         if dt == np.uint8:
@@ -461,9 +506,18 @@ def global_reference(prev, info, k, method, outside_value=None, factors=None):
 
 
 def flat_ints(arr, scale=1):
+    """flat list of integers for TLC.  64-bit values do not survive TLC's JSON
+    reader (32-bit integers): every uint64 element travels as THREE integers
+    (bits 0-29, 30-59, 60-63) - a lossless structural re-encoding, two
+    sequences are equal iff the arrays are."""
     a = np.asarray(arr)
     if a.dtype.kind == "f":
         a = np.rint(a.astype(np.float64) * scale)
+    if a.dtype == np.uint64:
+        out = []
+        for v in a.reshape(-1).tolist():
+            out += [v & 0x3FFFFFFF, (v >> 30) & 0x3FFFFFFF, v >> 60]
+        return out
     return [int(v) for v in a.reshape(-1)]
 
 
